@@ -70,6 +70,7 @@ func main() {
 	stim := flag.String("stim", "", "")
 	random := flag.Int("random", 0, "")
 	conc := flag.Int("conc", 0, "rounds of concurrent first contacts of a fresh subnet")
+	gc := flag.Int("gc", 0, "rounds of bucket-collection histories")
 	flag.Parse()
 	rng := rand.New(rand.NewSource(vtrace.Seed()))
 	tr = vtrace.Open(*out)
@@ -158,6 +159,65 @@ func main() {
 				wg.Wait()
 			}
 			inConc = false
+			cl.Close()
+		}
+	}
+	// bucket collection: gc() compares lastSeen with the wall clock, so these histories use time stamps
+	// relative to the real clock (t = milliseconds since ten minutes ago); lim.gc is one gc() call.
+	if *gc > 0 {
+		for r := 0; r < *gc; r++ {
+			base := time.Now().Add(-10 * time.Minute)
+			at := func(ms int) time.Time { return base.Add(time.Duration(ms) * time.Millisecond) }
+			nowMs := func() int { return int(time.Since(base) / time.Millisecond) }
+			shapes := []cfg{{8, 4, 24, 48}, {1, 100, 24, 48}, {2, 200, 0, 0}, {8, 0, 24, 48}, {1, 70, 24, 48}}
+			c := shapes[r%len(shapes)]
+			cl := limiter.NewClientLimiter(limiter.ClientLimiterOpts{Limit: float64(c.limit), Burst: c.burst, V4Mask: c.v4, V6Mask: c.v6})
+			tr.Emit("lim.cfg", "limit", c.limit, "burst", c.burst, "v4", c.v4, "v6", c.v6)
+			call := func(a string, ms, n int) {
+				ad := netip.MustParseAddr(a)
+				res := cl.AllowN(ad, at(ms), n)
+				tr.Emit("lim.v", "addr", fromAddr(ad), "t", ms, "n", n, "res", res)
+			}
+			burst := c.burst
+			if burst == 0 {
+				burst = c.limit
+			}
+			drain := func(a string, ms int) {
+				left := burst
+				for left > 0 {
+					n := 1 + rng.Intn(3)
+					if n > left {
+						n = left
+					}
+					call(a, ms, n)
+					left -= n
+				}
+				call(a, ms, 1) // refused: the bucket is empty
+			}
+			t0 := nowMs()
+			// an active client: first seen two minutes ago, still querying now, bucket empty
+			drain("10.9.1.1", t0-120000)
+			for ms := t0 - 118000; ms < t0-2000; ms += 7000 + rng.Intn(4000) {
+				call("10.9.1.1", ms, 1+rng.Intn(2))
+			}
+			drain("10.9.1.2", t0-1)
+			// an idle client whose bucket is full again, one that is idle but has not refilled (large burst),
+			// one idle for less than the collection age
+			drain("10.9.2.1", t0-(61000+rng.Intn(50000)))
+			drain("2001:db8:9:1::1", t0-(61000+rng.Intn(30000)))
+			drain("10.9.3.1", t0-(20000+rng.Intn(30000)))
+			limiter.VerifGC(cl)
+			tr.Emit("lim.gc", "t", nowMs())
+			t1 := nowMs()
+			for _, a := range []string{"10.9.1.77", "10.9.2.1", "2001:db8:9:1::2", "10.9.3.200"} {
+				call(a, t1, burst)
+				call(a, t1, 1)
+			}
+			limiter.VerifGC(cl)
+			tr.Emit("lim.gc", "t", nowMs())
+			for _, a := range []string{"10.9.1.1", "10.9.2.2", "10.9.3.1"} {
+				call(a, nowMs(), 1+rng.Intn(burst))
+			}
 			cl.Close()
 		}
 	}
